@@ -103,7 +103,7 @@ def main():
             if args and name not in args:
                 continue
             meta = json.load(open(meta_p))
-            prop = meta["property"]
+            prop = meta.get("check_with") or meta["property"]     # (re-attributed by the builder, see meta.json)
             if props and prop not in props:
                 continue
 
